@@ -366,11 +366,23 @@ fn run_e2e(c: &C12Case) -> Outcome {
 			o.label("explicit-file-via-environment");
 		}
 	}
+	// "dotfiles" layout: the global configuration directory lies inside the project origin
+	let xdg = if c.suffix % 3 == 0 {
+		let x = p.origin.join("xdgconf");
+		std::fs::create_dir_all(x.join("git")).unwrap();
+		std::fs::create_dir_all(x.join("watchexec")).unwrap();
+		std::fs::write(x.join("git/ignore"), "glob-git-only.tmp\n").unwrap();
+		std::fs::write(x.join("watchexec/ignore"), "glob-app-only.tmp\n").unwrap();
+		o.label("global-config-inside-the-project");
+		x
+	} else {
+		h.join("xdg")
+	};
 	let mut cmd = std::process::Command::new(super::c18::wx_path());
 	cmd.args(&av)
 		.current_dir(&p.origin)
 		.env("HOME", &h)
-		.env("XDG_CONFIG_HOME", h.join("xdg"))
+		.env("XDG_CONFIG_HOME", &xdg)
 		.env("GIT_CONFIG_NOSYSTEM", "1")
 		.env_remove("WATCHEXEC_IGNORE_FILES")
 		.env_remove("WATCHEXEC_FILTER_FILES")
@@ -574,7 +586,7 @@ pub fn check(e: &Engine) {
 			threads: 16,
 			confirm: 3,
 			max_shrink_iters: 12,
-			rule: "the real CLI process (wx = watchexec_cli::run(): real get_args normalisation, config wiring, ignore discovery and native fs watcher) in --only-emit-events text mode on a generated project, with a generated (flag set, explicit option) pair: after a readiness sentinel has been reported, one file per ignore source and per explicit-option probe is created (or modified, for --fs-events), then a final sentinel; a probe counts as passed iff a reported line names it; expected per the same tables as the in-process leg; non-trivial = flag set non-empty and an explicit option given",
+			rule: "the real CLI process (wx = watchexec_cli::run(): real get_args normalisation, config wiring, ignore discovery and native fs watcher) in --only-emit-events text mode on a generated project (in a third of the cases with the global configuration directory inside the project origin), with a generated (flag set, explicit option) pair: after a readiness sentinel has been reported, one file per ignore source and per explicit-option probe is created (or modified, for --fs-events), then a final sentinel; a probe counts as passed iff a reported line names it; expected per the same tables as the in-process leg; non-trivial = flag set non-empty and an explicit option given",
 			confirm_any: &[],
 		},
 		&e2e_strategy,
